@@ -2,6 +2,7 @@
 import Driver.Util
 import SpyneModel.Dispatch
 import SpyneModel.DispatchHttp
+import SpyneModel.DispatchBytes
 import SpyneModel.Generated.Facts11
 open Lean SpyneModel SpyneModel.Dispatch Driver
 
@@ -49,10 +50,21 @@ def getRequest (r : Routes) (j : Json) : Request :=
   | "http" => httpRequest r (getText j "verb") (getText j "path")
   | _ => .null []
 
+def getBytes (j : Json) (k : String) : List Nat :=
+  (getArr j k).toList.map (fun c => match c.getNat? with | .ok n => n | .error _ => 0)
+
+/-- what the request amounts to: byte-named requests go through the wire-name decoder -/
+def serveJson (r : Routes) (tns : Text) (q : Json) : Resp :=
+  match getStr q "k" with
+  | "rpcb" => serveWire F r tns .rpcName (.bin (getBytes q "b"))
+  | "keyb" => serveWire F r tns .key (.bin (getBytes q "b"))
+  | _ => serve F r tns (getRequest r q)
+
 def respJson : Resp → Json
   | .ran calls => Json.mkObj [("ran", Json.arr (calls.map (fun (n : Nat) => Json.num (JsonNumber.fromNat n))).toArray)]
   | .notFound => Json.str "Client.ResourceNotFound"
   | .stuck => Json.str "stuck"
+  | .clientFault => Json.str "Client.fault"
 
 def errJson : BuildErr → Json
   | .methodAlreadyExists => "MethodAlreadyExistsError"
@@ -75,7 +87,7 @@ def step (j : Json) : Json :=
       | .error e => Json.mkObj [("build_error", errJson e)]
       | .ok r =>
         let routes := r.map (fun kv => Json.arr #[textJson kv.1, Json.arr (kv.2.map (fun m => Json.num (JsonNumber.fromNat m.fid))).toArray])
-        let resps := (getArr j "requests").toList.map (fun q => respJson (serve F r tns (getRequest r q)))
+        let resps := (getArr j "requests").toList.map (fun q => respJson (serveJson r tns q))
         let pats := (sortDesc (httpPatterns r)).map (fun p => Json.arr #[textJson p.addr, Json.num (JsonNumber.fromNat p.efid)])
         let amb := (httpPatterns r).any (fun p => (httpPatterns r).any (fun q => p.ambiguousWith q))
         Json.mkObj [("routes", Json.arr routes.toArray), ("names", Json.arr (ms.map (methodJson tns)).toArray),
@@ -83,6 +95,8 @@ def step (j : Json) : Json :=
                     ("ambiguous", Json.bool amb)]
   | "addr" =>
     Json.mkObj [("ok", Json.bool (addrMatches (compileAddr (withSlash (getText j "addr"))) (withSlash (getText j "path"))))]
+  | "utf8" =>
+    Json.mkObj [("ok", match decodeName (getBytes j "b") with | some t => textJson t | none => Json.null)]
   | "verb" =>
     let alts := (getArr j "alts").toList.map jsonText
     Json.mkObj [("ok", Json.bool (verbMatches (some alts) (getText j "verb")))]
